@@ -8,6 +8,7 @@
 import WR.C05.LemmasMatch
 import WR.C05.LemmasSpec
 import WR.C05.LemmasDom
+import WR.C05.LemmasParseTotal
 namespace WR.Props.C05
 open WR.C05 WR.C05.Spec WR.C05.Lemmas
 
@@ -306,5 +307,43 @@ theorem specLe_antisymm {x y : Specificity} (h1 : SpecLe x y) (h2 : SpecLe y x) 
   obtain ⟨a', b', c'⟩ := y
   simp only [SpecLe] at h1 h2
   simp only [Specificity.mk.injEq]; omega
+
+/-! ## the parser -/
+
+open WR.C05.Parse in
+/-- C05, parser: the model of `selector.ParseGroup` terminates on EVERY text with a selector list, a
+    syntax error or "outside the modelled grammar" — the fuel it runs on (`4·|text| + 8`; `2·|text| + 5`
+    suffice) is never exhausted, although `:not( … )` re-enters the whole grammar. -/
+theorem parse_total (s : Str) :
+    (∃ g, parseGroupText s = .ok g) ∨ parseGroupText s = .error .malformed ∨
+      parseGroupText s = .error .unsupported := by
+  have hG := (allGood (fuelFor s)).G s (by unfold fuelFor; omega)
+  unfold parseGroupText
+  split
+  · rename_i e he
+    cases e with
+    | malformed => exact Or.inr (Or.inl rfl)
+    | unsupported => exact Or.inr (Or.inr rfl)
+    | fuel => exact absurd he hG.1
+  · exact Or.inl ⟨_, rfl⟩
+  · exact Or.inr (Or.inl rfl)
+
+open WR.C05.Parse in
+/-- every parser function consumes input: what `parseSelectorGroup` leaves is shorter than its input -/
+theorem parse_consumes (fuel : Nat) (s : Str) (g : List Sel) (r : Str)
+    (hf : 2 * s.length + 5 ≤ fuel) (h : parseGroupF fuel s = .ok (g, r)) : r.length < s.length :=
+  ((allGood fuel).G s hf).2 g r h
+
+open WR.C05.Parse in
+/-- the specificity of every selector the parser returns is the Selectors specificity of that selector -/
+theorem parsed_specificity_eq_spec (text : Str) (g : List Sel) (_h : parseGroupText text = .ok g) :
+    ∀ s ∈ g, HasSpecificity s (specificity s) :=
+  fun s _ => specificity_eq_spec s
+
+/-- the parser model runs inside the kernel: parse, then print -/
+example : (match WR.C05.Parse.parseGroupText "a.b>P:not( .x,#y ):nth-child( -2n + 3 )::before".toList with
+    | .ok g => WR.C05.Print.printGroup g
+    | .error _ => []) = "a.b > p:not(.x, #y):nth-child(-2n+3)::before".toList := by
+  decide
 
 end WR.Props.C05
